@@ -29,3 +29,28 @@ Proof.
   rewrite (enc_prog_eqv_sound cs _ _ He).
   apply (ref_enc_correct cs M (mk_of O) (nodupb_NoDup _ Hp) fuel path p); assumption.
 Qed.
+
+(* ---- decoders ---- *)
+From FP Require Import EqvSoundDec RefDec Typed.
+
+Definition validate_dec_full (M : bmodel) (O : prog) : bool := andb (validate_dec M O) (lenw_ok M).
+
+Theorem validated_dec_correct cs M O :
+  validate_dec_full M O = true ->
+  forall fuel path p v pre out,
+    In (path, p) (all_packets M) -> typed M fuel p v = true ->
+    lay_packet cs M fuel p v pre = Some out ->
+    exists msg v',
+      out = pre ++ msg /\
+      (forall rest, sem_dec O fuel path (msg ++ rest) = DOk (v', rest)) /\
+      ueq cs M fuel p v v' /\
+      lay_packet cs M fuel p v' pre = Some out.
+Proof.
+  unfold validate_dec_full, validate_dec, paths_ok. intros H.
+  apply andb_prop in H. destruct H as [H Hlw]. apply andb_prop in H. destruct H as [Hp He].
+  intros fuel path p v pre out Hin Ht Hlay.
+  destruct (ref_dec_correct cs M (mk_of O) (nodupb_NoDup _ Hp) Hlw fuel path p v pre out Hin Ht Hlay)
+    as [msg [v' [Ho [Hd [Hu Hre]]]]].
+  exists msg, v'. split; [exact Ho|]. split; [|split; assumption].
+  intros rest. rewrite (dec_prog_eqv_sound _ _ He). apply Hd.
+Qed.
